@@ -609,3 +609,21 @@ Definition cores_ok : bool :=
   role2 fw_try_pop_n_core_whole false && same2 fw_try_pop_n_core_whole fw_try_pop_n_core_first &&
   same2 fw_try_pop_n_core_whole fw_try_pop_n_core_second &&
   negb (Z.testbit (fw_until_core 0) 1) && negb (Z.testbit (fw_until_core 1) 1).
+
+(* ---- swap (the move constructor and move assignment are swap) ----
+   Which member of `other` each member of `this` is exchanged with is regenerated from the body of swap as a member code
+   (1 _slots, 2 _slot_mask, 3 _slot_bits, 4 _next_push_index, 5 _next_pop_index; for the two indices: the member
+   `this` stores from, the local `other` is assigned from and the member that local was read from). *)
+Record aq := { a_slots : Z; a_mask : Z; a_bits : Z; a_push : Z; a_pop : Z }.
+Definition getm (code : Z) (q : aq) : Z :=
+  match code with 1 => a_slots q | 2 => a_mask q | 3 => a_bits q | 4 => a_push q | 5 => a_pop q | _ => -1 end.
+Definition swap_local (code : Z) (this : aq) : Z :=
+  match code with 4 => getm sw_local_push_src this | 5 => getm sw_local_pop_src this | _ => -1 end.
+(* std::swap(m, other.x): other.x receives m; it is other's member m only if x = m *)
+Definition swapped_back (own code : Z) (this : aq) : Z := if Z.eqb own code then getm own this else -1.
+Definition swap_this (this other : aq) : aq :=
+  {| a_slots := getm sw_slots other; a_mask := getm sw_mask other; a_bits := getm sw_bits other;
+     a_push := getm sw_this_push other; a_pop := getm sw_this_pop other |}.
+Definition swap_other (this other : aq) : aq :=
+  {| a_slots := swapped_back 1 sw_slots this; a_mask := swapped_back 2 sw_mask this; a_bits := swapped_back 3 sw_bits this;
+     a_push := swap_local sw_other_push_local this; a_pop := swap_local sw_other_pop_local this |}.
